@@ -906,6 +906,9 @@ def offset_labels(labels: np.ndarray, ngroups: int) -> tuple[np.ndarray, int]:
 
 def _factorize_single(by, expect, *, sort: bool, reindex: bool) -> tuple[pd.Index, np.ndarray]:
     flat = by.reshape(-1)
+    if isinstance(expect, pd.RangeIndex) and (expect.start != 0 or expect.step != 1):
+        # only RangeIndex(n) means "the labels are their own codes"
+        expect = pd.Index(expect.to_numpy())
     if isinstance(expect, pd.RangeIndex):
         # idx is a view of the original `by` array
         # copy here so we don't have a race condition with the
@@ -916,7 +919,7 @@ def _factorize_single(by, expect, *, sort: bool, reindex: bool) -> tuple[pd.Inde
         found_groups = cast(pd.Index, expect)
         # TODO: fix by using masked integers
         if len(expect) > 0:
-            idx[idx > expect[-1]] = -1
+            idx[(idx < 0) | (idx > expect[-1])] = -1
 
     elif isinstance(expect, pd.IntervalIndex):
         if expect.closed == "both":
